@@ -59,10 +59,41 @@ def warnings_unit(res):
     return res
 
 
+def cells_unit(res):
+    """Frontend._get_lcd_cp_ports: what is put into the CP and LCD cells of a line (the format template is opaque, its
+    arguments are not): CP cell = float(latency_cp of the line) iff the line is on the critical path, LCD cell =
+    float(latency) iff the line belongs to the longest LCD - also when that latency is 0."""
+    ex = Engine([REPO + "/" + f for f in ("osaca/parser/instruction_form.py", FE)])
+    cpv, lcdv = z3.Real("latency_cp"), z3.Real("dep_lat")
+    for on_cp in (False, True):
+        for on_lcd in (False, True):
+            def run():
+                node = ex.instantiate("InstructionForm", kw=dict(mnemonic="op", line_number=5))
+                node.fields["latency_cp"] = SNum(cpv, False)
+                other = ex.instantiate("InstructionForm", kw=dict(mnemonic="op", line_number=4))
+                other.fields["latency_cp"] = Fraction(99)
+                return ex.call_method("Frontend", "_get_lcd_cp_ports", SObj("Frontend"), [5, [other, node] if on_cp else None, SNum(lcdv, False) if on_lcd else None])
+
+            paths = ex.explore(run, [])
+
+            def post(v, p):
+                if not isinstance(v, OpaqueStr) or len(getattr(v, "args", [])) != 5:
+                    return False
+                cp_cell, lcd_cell = v.args[1], v.args[3]
+                g = []
+                g.append(ex.eq_term(cp_cell, SNum(cpv, False)) if on_cp else z3.BoolVal(cp_cell == ""))
+                g.append(ex.eq_term(lcd_cell, SNum(lcdv, False)) if on_lcd else z3.BoolVal(lcd_cell == ""))
+                return z3.And(g)
+
+            res.add_paths(paths, post, kind=f"cells[cp={on_cp},lcd={on_lcd}]")
+    return res
+
+
 def units(tier):
     return [
         Unit("C13/frontend/warning-texts-and-marks", warnings_unit, "P", [(FE, "Frontend._user_warnings_header"), (FE, "Frontend._user_warnings_footer"),
                                                                         (FE, "Frontend._get_flag_symbols")], decisive=False),
+        Unit("C13/frontend/_get_lcd_cp_ports", cells_unit, "P", [(FE, "Frontend._get_lcd_cp_ports"), (FE, "Frontend._get_node_by_lineno")], decisive=False),
         bounded_unit("C13/report-vs-dict", "c13_report", [(FE, "Frontend.combined_view"), (FE, "Frontend.full_analysis_dict"), (FE, "Frontend.loopcarried_dependencies"),
                      (FE, "Frontend._get_port_pressure"), (FE, "Frontend._get_lcd_cp_ports"), (OS, "inspect")], extra_args=["C13"], timeout=2400, decisive=True),
     ]
